@@ -52,7 +52,8 @@ pub const K_REINTERPRET_FROM_BYTES: u8 = 26;
 pub const K_STRING_ROUND_TRIP: u8 = 27;
 pub const K_EQ_ORD_CHECK: u8 = 28;
 pub const K_PUSH_SELF_CLONE: u8 = 29;
-pub const N_KINDS: u8 = 30;
+pub const K_PUSH_BIG: u8 = 30;
+pub const N_KINDS: u8 = 31;
 
 pub fn kind_name(k: u8) -> &'static str {
     match k {
@@ -86,6 +87,7 @@ pub fn kind_name(k: u8) -> &'static str {
         K_STRING_ROUND_TRIP => "String round trip",
         K_EQ_ORD_CHECK => "eq/ord",
         K_PUSH_SELF_CLONE => "push_tendril(clone of self)",
+        K_PUSH_BIG => "push_big",
         _ => "?",
     }
 }
@@ -96,8 +98,41 @@ pub struct Fail {
     pub detail: String,
 }
 
-fn fail(class: &str, detail: String) -> Fail {
+fn fail(class: &str, mut detail: String) -> Fail {
+    if detail.len() > 3000 {
+        let mut cut = 3000;
+        while !detail.is_char_boundary(cut) {
+            cut -= 1;
+        }
+        detail.truncate(cut);
+        detail.push_str("… (truncated)");
+    }
     Fail { class: class.to_string(), detail }
+}
+
+/// Sizes of the "big" operations: around powers of two and just below page multiples, the
+/// thresholds growth policies, block-wise copies and 16-bit counters hang on.
+pub const BIG_BASES: &[u32] = &[4096, 8192, 65536, 131072, 1 << 20, (1 << 20) + 3 * 4096, 1 << 21, 3 << 20];
+
+pub fn big_size(b: u32, c: u32) -> u32 {
+    let base = BIG_BASES[b as usize % BIG_BASES.len()];
+    base - 20 + (c % 41)
+}
+
+/// An iterator whose `size_hint` is wrong (it is only advisory in safe Rust).
+pub struct Liar<I> {
+    pub inner: I,
+    pub claim: usize,
+}
+
+impl<I: Iterator> Iterator for Liar<I> {
+    type Item = I::Item;
+    fn next(&mut self) -> Option<I::Item> {
+        self.inner.next()
+    }
+    fn size_hint(&self) -> (usize, Option<usize>) {
+        (self.claim, Some(self.claim))
+    }
 }
 
 // ------------------------------------------------------------------ independent validators
@@ -195,7 +230,7 @@ pub trait FmtSpec: Format + Sized + 'static {
     fn bytes_only<A: Atomicity>(_t: &mut Tendril<Self, A>, _model: &mut Vec<u8>, _op: &Op) -> bool {
         false
     }
-    fn extend_iter<A: Atomicity>(_t: &mut Tendril<Self, A>, _model: &mut Vec<u8>, _data: &[u8]) -> bool {
+    fn extend_iter<A: Atomicity>(_t: &mut Tendril<Self, A>, _model: &mut Vec<u8>, _data: &[u8], _claim: usize) -> bool {
         false
     }
     /// subset / superset round trip; returns Err(detail) on a wrong answer
@@ -223,7 +258,7 @@ fn gen_ascii(rng: &mut Rng, len: usize) -> Vec<u8> {
 fn gen_utf8(rng: &mut Rng, len: usize) -> Vec<u8> {
     let mut s = String::new();
     while s.len() < len {
-        let c = *rng.pick(&['a', 'b', ' ', 'Z', '\n', 'é', 'ß', '中', '€', '😀', '\u{10ffff}', '\0', '<']);
+        let c = *rng.pick(&['a', 'b', ' ', 'Z', '\n', 'é', 'ß', '中', '€', '😀', '\u{10ffff}', '\0', '<', '\u{d55c}', '\u{d7ff}', '\u{e000}']);
         if s.len() + c.len_utf8() > len {
             s.push('x');
         } else {
@@ -270,11 +305,16 @@ impl FmtSpec for fmt::Bytes {
             _ => false,
         }
     }
-    fn extend_iter<A: Atomicity>(t: &mut Tendril<Self, A>, model: &mut Vec<u8>, data: &[u8]) -> bool {
+    fn extend_iter<A: Atomicity>(t: &mut Tendril<Self, A>, model: &mut Vec<u8>, data: &[u8], claim: usize) -> bool {
         t.extend(data.iter());
         t.extend(data.iter().cloned());
         t.extend([data, data].iter().cloned());
-        for _ in 0..4 {
+        // size_hint is advisory: an iterator that claims `claim` items and yields data.len()
+        t.extend(Liar { inner: data.iter().cloned(), claim });
+        t.extend(Liar { inner: data.iter(), claim: claim / 2 });
+        let collected: Tendril<Self, A> = Liar { inner: data.iter().cloned(), claim }.collect();
+        t.push_tendril(&collected);
+        for _ in 0..7 {
             model.extend_from_slice(data);
         }
         true
@@ -399,13 +439,20 @@ impl FmtSpec for fmt::UTF8 {
         model.make_ascii_uppercase();
         true
     }
-    fn extend_iter<A: Atomicity>(t: &mut Tendril<Self, A>, model: &mut Vec<u8>, data: &[u8]) -> bool {
+    fn extend_iter<A: Atomicity>(t: &mut Tendril<Self, A>, model: &mut Vec<u8>, data: &[u8], claim: usize) -> bool {
         let s = String::from_utf8_lossy(data).into_owned();
         t.extend(s.chars());
         t.extend([s.as_str(), "z"].iter().cloned());
-        model.extend_from_slice(s.as_bytes());
-        model.extend_from_slice(s.as_bytes());
+        t.extend(Liar { inner: s.chars(), claim });
+        let collected: Tendril<Self, A> = Liar { inner: s.chars(), claim }.collect();
+        t.push_tendril(&collected);
+        for _ in 0..2 {
+            model.extend_from_slice(s.as_bytes());
+        }
         model.push(b'z');
+        for _ in 0..2 {
+            model.extend_from_slice(s.as_bytes());
+        }
         true
     }
     fn subset_round_trip<A: Atomicity>(t: Tendril<Self, A>, model: &[u8]) -> Result<Tendril<Self, A>, String> {
@@ -467,7 +514,8 @@ impl FmtSpec for fmt::WTF8 {
         let mut out = Vec::new();
         let mut prev_lead = false;
         while out.len() < len {
-            let cp: u32 = match rng.below(8) {
+            let cp: u32 = match rng.below(9) {
+                8 => 0xD000 + rng.below(0x800) as u32, // 0xED lead byte without being a surrogate
                 0 => 0xD800 + rng.below(0x400) as u32,
                 1 => 0xDC00 + rng.below(0x400) as u32,
                 2 => 0x10000 + rng.below(0x1000) as u32,
@@ -517,13 +565,15 @@ fn pick_len(rng: &mut Rng) -> usize {
 
 fn invalid_bytes(rng: &mut Rng) -> Vec<u8> {
     let mut v = b"ab".to_vec();
-    match rng.below(7) {
+    match rng.below(9) {
         0 => v.push(0x80),
         1 => v.extend_from_slice(&[0xC3]),
         2 => v.extend_from_slice(&[0xE4, 0xB8]),
         3 => v.extend_from_slice(&[0xF0, 0x9F, 0x98]),
         4 => v.extend_from_slice(&[0xED, 0xA0, 0x80, 0xED, 0xB0, 0x80]),
         5 => v.extend_from_slice(&[0xC0, 0xAF]),
+        6 => v.extend_from_slice(&[0xED, 0x95, 0x9C, 0xED, 0xA0, 0x80]), // Hangul, then a lone surrogate
+        7 => v.extend_from_slice(&[0xED, 0x9F, 0xBF, b'q', 0xED, 0xBF, 0xBF]),
         _ => v.extend_from_slice(&[0xFF, b'z']),
     }
     if rng.chance(1, 2) {
@@ -563,14 +613,19 @@ pub fn gen_history<F: FmtSpec>(rng: &mut Rng, max_ops: usize) -> Vec<Op> {
                     1 => 1,
                     2 => 1_000_000, // "whole length" marker, resolved at run time
                     3 => 1_000_001, // length + 1: out of bounds
+                    4 if rng.chance(1, 3) => *rng.pick(&[1_000_002u32, 1_000_003, 1_000_004]), // u32::MAX, 2^31, u32::MAX - len + 1
                     _ => rng.below(40) as u32,
                 }
             },
             K_TRY_SUBTENDRIL | K_SUBTENDRIL_PANIC => {
                 b = rng.below(48) as u32; // offset
+                if rng.chance(1, 30) {
+                    b = 1_000_002; // u32::MAX
+                }
                 c = match rng.below(5) {
                     0 => 1_000_000, // up to the end
                     1 => 1_000_001, // one past the end
+                    2 if rng.chance(1, 2) => *rng.pick(&[1_000_002u32, 1_000_003, 1_000_004, 1_000_005]), // u32::MAX, 2^31, wrap-to-0, wrap-to-len
                     _ => rng.below(40) as u32,
                 };
                 data = vec![rng.below(POOL) as u8]; // destination slot
@@ -579,6 +634,37 @@ pub fn gen_history<F: FmtSpec>(rng: &mut Rng, max_ops: usize) -> Vec<Op> {
                 c = *rng.pick(&['a' as u32, 'Z' as u32, 0xE9, 0xFF, 0x100, 0x4E2D, 0x1F600, 0x7F, 0x80, 0])
             },
             K_EXTEND_WITH_BYTE => b = pick_len(rng).min(64) as u32,
+            _ => {},
+        }
+        ops.push(Op { kind, a, b, c, data });
+    }
+    ops
+}
+
+/// A short history around one or two BIG buffers (kilobytes to megabytes).
+pub fn gen_big_history<F: FmtSpec>(rng: &mut Rng) -> Vec<Op> {
+    let n = rng.range(3, 10);
+    let mut ops = Vec::with_capacity(n);
+    for _ in 0..n {
+        let kind = *rng.pick(&[K_PUSH_BIG, K_PUSH_BIG, K_PUSH_BIG, K_RESERVE, K_WITH_CAPACITY, K_CLONE, K_TRY_SUBTENDRIL, K_TRY_POP_FRONT, K_TRY_POP_BACK, K_PUSH_TENDRIL, K_DROP, K_TRY_PUSH_BYTES, K_PUSH_SELF_CLONE, K_SEND_ROUND_TRIP, K_EXTEND_WITH_BYTE]);
+        let a = rng.below(3) as u32;
+        let mut b = rng.below(3) as u32;
+        let mut c = rng.below(41) as u32;
+        let mut data = vec![];
+        match kind {
+            K_PUSH_BIG => b = rng.below(BIG_BASES.len()) as u32,
+            K_RESERVE | K_WITH_CAPACITY => b = big_size(rng.below(BIG_BASES.len()) as u32, c),
+            K_EXTEND_WITH_BYTE => b = big_size(rng.below(4) as u32, c),
+            K_TRY_PUSH_BYTES => {
+                let l = pick_len(rng);
+                data = F::gen_valid(rng, l);
+            },
+            K_TRY_POP_FRONT | K_TRY_POP_BACK => b = *rng.pick(&[0u32, 1, 7, 4095, 4096, 65535, 65536, 1_000_000, 1_000_001]),
+            K_TRY_SUBTENDRIL => {
+                b = *rng.pick(&[0u32, 1, 8, 4096, 65535, 65536]);
+                c = *rng.pick(&[1_000_000u32, 1_000_001, 1, 4096, 65535, 65536, 65537]);
+                data = vec![rng.below(3) as u8];
+            },
             _ => {},
         }
         ops.push(Op { kind, a, b, c, data });
@@ -610,6 +696,9 @@ fn resolve(n: u32, len: usize) -> u32 {
     match n {
         1_000_000 => len as u32,
         1_000_001 => len as u32 + 1,
+        1_000_002 => u32::MAX,
+        1_000_003 => 1 << 31,
+        1_000_004 => (u32::MAX - len as u32).wrapping_add(1),
         x => x,
     }
 }
@@ -750,10 +839,20 @@ pub fn run_history<F: FmtSpec, A: Atomicity>(ops: &[Op], obs: &mut dyn Observer)
             K_TRY_SUBTENDRIL | K_SUBTENDRIL_PANIC => {
                 let dst = op.data.first().cloned().unwrap_or(0) as usize % POOL;
                 let ml = model[i].len();
-                let off = if op.b as usize > ml + 1 { (op.b as usize % (ml + 2)) as u32 } else { op.b };
+                let off = if op.b == 1_000_002 {
+                    u32::MAX
+                } else if op.b as usize > ml + 1 {
+                    (op.b as usize % (ml + 2)) as u32
+                } else {
+                    op.b
+                };
                 let len = match op.c {
                     1_000_000 => (ml as u32).saturating_sub(off),
-                    1_000_001 => (ml as u32).saturating_sub(off) + 1,
+                    1_000_001 => (ml as u32).saturating_sub(off).saturating_add(1),
+                    1_000_002 => u32::MAX,
+                    1_000_003 => 1 << 31,
+                    1_000_004 => (u32::MAX - off).wrapping_add(1), // off + len wraps to 0
+                    1_000_005 => (u32::MAX - off).wrapping_add(1).wrapping_add(ml as u32), // off + len wraps to the length
                     x => x,
                 };
                 let expect = expect_sub::<F>(&model[i], off, len);
@@ -773,6 +872,17 @@ pub fn run_history<F: FmtSpec, A: Atomicity>(ops: &[Op], obs: &mut dyn Observer)
                     (g, e) => {
                         return Err(fail("checked-op-result-differs", format!("op #{oi} {}({off},{len}) on slot {i} ({}), content {:?}: returned {:?}, model says {:?}", kind_name(op.kind), F::NAME, model[i], g.map(|t| t.as_bytes().to_vec()), e)));
                     },
+                }
+            },
+            K_PUSH_BIG => {
+                let n = big_size(op.b, op.c) as usize;
+                if model[i].len() + n <= 8 << 20 {
+                    // lower-case ASCII: valid in every format
+                    let data: Vec<u8> = (0..n).map(|k| b'a' + ((k as u32).wrapping_mul(7).wrapping_add(op.c) % 26) as u8).collect();
+                    if pool[i].try_push_bytes(&data).is_err() {
+                        return Err(ctx(format!("try_push_bytes rejected {n} ASCII letters")));
+                    }
+                    model[i].extend_from_slice(&data);
                 }
             },
             K_CLONE => {
@@ -888,7 +998,7 @@ pub fn run_history<F: FmtSpec, A: Atomicity>(ops: &[Op], obs: &mut dyn Observer)
             },
             K_EXTEND_ITER => {
                 let (t, m) = (&mut pool[i], &mut model[i]);
-                F::extend_iter(t, m, &op.data);
+                F::extend_iter(t, m, &op.data, op.c as usize % 70);
             },
             K_SUBSET_ROUND_TRIP => {
                 let t = std::mem::replace(&mut pool[i], Tendril::new());
@@ -979,6 +1089,21 @@ pub fn gen_selected(fmt_id: u8, rng: &mut Rng, max_ops: usize) -> Vec<Op> {
         3 => gen_history::<fmt::Latin1>(rng, max_ops),
         _ => gen_history::<fmt::WTF8>(rng, max_ops),
     }
+}
+
+/// Like `gen_selected`, but one history in 150 is built around big buffers (native speed only:
+/// the Miri front end keeps to `gen_selected`).
+pub fn gen_selected_scale(fmt_id: u8, rng: &mut Rng, max_ops: usize) -> Vec<Op> {
+    if rng.chance(1, 150) {
+        return match fmt_id % 5 {
+            0 => gen_big_history::<fmt::UTF8>(rng),
+            1 => gen_big_history::<fmt::Bytes>(rng),
+            2 => gen_big_history::<fmt::ASCII>(rng),
+            3 => gen_big_history::<fmt::Latin1>(rng),
+            _ => gen_big_history::<fmt::WTF8>(rng),
+        };
+    }
+    gen_selected(fmt_id, rng, max_ops)
 }
 
 pub fn fmt_name(fmt_id: u8) -> &'static str {
